@@ -66,7 +66,9 @@ func TestRelay(t *testing.T) {
 		if s == nil {
 			return
 		}
-		defer close(s.bdone)
+		var once sync.Once
+		readDone := func() { once.Do(func() { close(s.bdone) }) }
+		defer readDone()
 		tagOf := map[int]string{}
 		for k := 1; k <= s.prog.Pre; k++ {
 			bid := 10*k + s.hist%7 // backend-chosen ids, unrelated to the proxy's client-side ids
@@ -108,6 +110,7 @@ func TestRelay(t *testing.T) {
 			s.rec.add(tracefmt.Rec{"ev": "deliverret", "tag": tag})
 			got++
 		}
+		readDone() // the script may go on: the backend now completes the join
 		bc.Conn.Timeout = 5 * time.Second
 		if err := bc.CompleteJoin(-1); err != nil {
 			return
@@ -133,6 +136,7 @@ func TestRelay(t *testing.T) {
 	sem := make(chan struct{}, 12)
 	var samples []any
 	runs, answered, successes := 0, 0, 0
+	slow := []string{}
 	for hi, p := range progs {
 		hi, p := hi, p
 		wg.Add(1)
@@ -140,6 +144,14 @@ func TestRelay(t *testing.T) {
 		go func() {
 			defer wg.Done()
 			defer func() { <-sem }()
+			t0 := time.Now()
+			defer func() {
+				if d := time.Since(t0); d > 3*time.Second {
+					mu.Lock()
+					slow = append(slow, fmt.Sprintf("%d: %v %+v", hi, d.Round(time.Millisecond), p))
+					mu.Unlock()
+				}
+			}()
 			name := fmt.Sprintf("fr%d_%d", seed%1000, hi)
 			rec := &recorder{}
 			s := &relayScript{rec: rec, prog: p, hist: hi, bdone: make(chan struct{})}
@@ -170,11 +182,7 @@ func TestRelay(t *testing.T) {
 				if lc.closed || lc.success {
 					break
 				}
-				var body []byte
-				if rs.OK {
-					body = []byte{byte(rs.ID), byte(k + 1), 0}
-				}
-				lc.respond(rs.ID, rs.OK, body)
+				lc.respond(rs.ID, rs.OK, respBody(resp{ID: rs.ID, OK: rs.OK}, k+1))
 				lc.drain(quiet / 4)
 			}
 			select {
@@ -206,5 +214,5 @@ func TestRelay(t *testing.T) {
 		t.Fatal(err)
 	}
 	tracefmt.WriteJSON("stats_relay.json", map[string]any{"runs": runs, "backend_answers": answered,
-		"login_successes": successes, "samples": samples, "events": tw.N})
+		"login_successes": successes, "slow": slow, "samples": samples, "events": tw.N})
 }
